@@ -7,7 +7,8 @@
    ReadDir returns is kept; a name listed twice is looked up at its first
    occurrence). *)
 From Coq Require Import Permutation.
-From VF Require Import Outputs.Model Outputs.Spec Outputs.Proofs Outputs.ProofsMain.
+From VF Require Import Common.Verdict Outputs.Model Outputs.Spec Outputs.Corr Outputs.Proofs
+  Outputs.ProofsMain Outputs.ProofsP Outputs.Examples.
 
 (* A command is accepted exactly if its working directory and all of its
    output paths are relative, free of NUL bytes and never leave the input
@@ -83,3 +84,58 @@ Theorem outputs_exact : forall D (D_eqb : D -> D -> bool) (hash : blob D -> D),
   r_err r = exp_err decls es.
 Proof. exact outputs_exact_full. Qed.
 Print Assumptions outputs_exact.
+
+(* The monitor that Corr.v evaluates on implementation traces (p_reject,
+   p_parents_exist, p_upload of Spec.v) holds of every run of the model:
+   every command, input root and action.  The table the monitor looks Trees
+   up in is what the run wrote to the CAS.
+   Partial: the full monitor p_parents = p_parents_frame ("the input root is
+   not damaged and only ancestors of declared outputs are created") followed
+   by p_parents_exist; the frame part is evaluated on implementation traces
+   but not proved of the model.  Full statement:
+     ... | ParentsFailed mid => ... /\ p_parents c pre false mid = ""
+         | Ran mid r => ... /\ p_parents c pre true mid = "" /\ ... *)
+Theorem model_satisfies_P_partial : forall D (D_eqb : D -> D -> bool) (hash : blob D -> D),
+  (forall a b, D_eqb a b = true <-> a = b) ->
+  (forall m1 m2 : dirmsg D, hash (BDirectory m1) = hash (BDirectory m2) -> m1 = m2) ->
+  (forall t1 t2 : list (bool * dirmsg D), hash (BTree t1) = hash (BTree t2) -> t1 = t2) ->
+  forall c force pre action,
+  match run_action D_eqb hash c force pre action with
+  | Rejected => p_reject c false false = ""%string
+  | ParentsFailed mid => p_reject c true false = ""%string /\ p_parents_exist c pre false mid = ""%string
+  | Ran mid r =>
+    p_reject c true false = ""%string /\ p_parents_exist c pre true mid = ""%string /\
+    p_upload D_eqb hash (table_of D hash r) c force (action mid)
+             (r_files r) (r_dirs r) (r_syms r) (r_err r) = ""%string
+  end.
+Proof. exact model_satisfies_P_lemma. Qed.
+Print Assumptions model_satisfies_P_partial.
+
+(* Non-vacuity.  A recorded run of the implementation with aliased output
+   files, an output directory declared twice whose Tree shares two identical
+   sub-directories, a symlink, a missing output and parents to create: the
+   model agrees with it and the monitor accepts it. *)
+Example recorded_case_ok :
+  check_case ex_case = VOk /\
+  List.length (k_files ex_case) = 3 /\ List.length (k_dirs ex_case) = 2 /\
+  List.length (k_syms ex_case) = 1 /\ k_err ex_case = false.
+Proof. vm_compute. repeat split. Qed.
+
+(* parents_exist needs its proviso: with a regular file "a" in the input root
+   and output path "a/b", CreateParentDirectories reports success and the
+   parent of the output is that file. *)
+Example parents_exist_unconditional_refuted :
+  exists c h decls pre mid pl,
+    new_hierarchy c = Some h /\ declared c = Some decls /\
+    mk_parents (h_root h) pre = (true, mid) /\
+    In pl (parent_locs decls) /\ probe mid pl = Found (File false "").
+Proof.
+  exists (mkCmd "" ["a/b"%string] false). eexists. eexists.
+  exists [("a"%string, File false "")]. eexists. exists ["a"%string].
+  vm_compute. repeat split. now left.
+Qed.
+
+(* Rejection is not vacuous either. *)
+Example escaping_command : acceptable (mkCmd "a" ["../../x"%string] false) = false /\
+                           acceptable (mkCmd "a/.." ["b/../c"%string; "."%string] false) = true.
+Proof. vm_compute. split; reflexivity. Qed.
